@@ -10,7 +10,10 @@ use crate::util::VMThread;
 use crate::vm::VMBinding;
 use atomic::Atomic;
 use std::sync::atomic::Ordering;
+#[cfg(not(mmtk_verif))]
 use std::sync::RwLock;
+#[cfg(mmtk_verif)]
+use crate::util::verif::sync::RwLock;
 
 /// A region in a [`RegionPageResource`] and its allocation cursor.
 pub struct AllocatedRegion<R: Region> {
